@@ -647,24 +647,26 @@ def updateCallable (newSig : Sig) (c : Cfg) (drop : Bool) : Except Err Cfg :=
     | .ok c' => .ok (c'.log (.name "__fn_or_cls__") (.val (.v 0)))
 
 /-- `materialize_defaults` on one Buildable: every parameter that has a default and no stored
-    value is set to its default (positional-only ones by index). -/
-def materializeLoop (s : Sig) : List Param → Nat → Cfg → Except Err Cfg
-  | [], _, c => .ok c
-  | p :: ps, i, c =>
-    if !p.dflt then materializeLoop s ps (i + 1) c
+    value is set to its default (positional-only ones by index, and only while every earlier
+    required positional-only parameter has a value). `prefixSet` is that condition. -/
+def materializeLoop (s : Sig) : List Param → Nat → Bool → Cfg → Except Err Cfg
+  | [], _, _, c => .ok c
+  | p :: ps, i, prefixSet, c =>
+    let prefixSet := if p.kind == .po && !p.dflt then prefixSet && c.args.contains (.idx i) else prefixSet
+    if !p.dflt then materializeLoop s ps (i + 1) prefixSet c
     else if p.kind == .po then
-      if c.args.contains (.idx i) then materializeLoop s ps (i + 1) c
+      if c.args.contains (.idx i) || !prefixSet then materializeLoop s ps (i + 1) prefixSet c
       else
         match c.setItem s i (Sig.dfltVal p) with
-        | .ok c' => materializeLoop s ps (i + 1) c'
+        | .ok c' => materializeLoop s ps (i + 1) prefixSet c'
         | .error e => .error e
-    else if c.args.contains (.name p.name) then materializeLoop s ps (i + 1) c
+    else if c.args.contains (.name p.name) then materializeLoop s ps (i + 1) prefixSet c
     else
       match c.setAttr s p.name (Sig.dfltVal p) with
-      | .ok c' => materializeLoop s ps (i + 1) c'
+      | .ok c' => materializeLoop s ps (i + 1) prefixSet c'
       | .error e => .error e
 
-def materializeDefaults (s : Sig) (c : Cfg) : Except Err Cfg := materializeLoop s s 0 c
+def materializeDefaults (s : Sig) (c : Cfg) : Except Err Cfg := materializeLoop s s 0 true c
 
 end Cfg
 
